@@ -4,6 +4,11 @@ import json, os, subprocess
 V = os.path.dirname(os.path.dirname(os.path.abspath(__file__)))
 
 OPEN = [
+ {"id": "KF-RP-VBYTE-ZERO", "property": ["C01", "C02", "C03", "C04", "C06", "C07", "C08", "C12", "C13", "C14", "C15", "C16", "C18", "C20"], "status": "open",
+  "match": {"kind": ["RPFC", "RPHTFC"], "pred": "any(l >= 16384 and ((l >> 7) & 127) == 0 for i, l in enumerate(lcps) if (i + 1) % bs != 0)"},
+  "what": "RPFC/RPHTFC constructors take a zero byte in the second position of the shared-prefix VByte (prefix lengths 16384..16511, 32768..32895, ...) for a string terminator: the bucket is built wrongly (missing / wrong strings, exceptions)",
+  "witness": {"input": ["x^16390", "x^16390 a", "x^16390 ab", "x^16390 b"], "kind": "RPFC bucket size 4", "call": "locate(x^16390 a)", "expected": 2, "got": 0},
+  "why_not_fixed": "the Re-Pair based front coding marks string ends by position (a zero that does not directly follow a terminator); telling a zero VByte byte from a terminator after compression needs a different end marker, i.e. a format change"},
  {"id": "KF-XBW-RANK", "property": ["C03", "C06", "C08"], "status": "open",
   "match": {"kind": ["XBW"], "op": ["rank"], "fclass": "order", "site": "oracle"},
   "what": "XBW locateRank/extractRank are the identity on XBW (trie) IDs, which are not lexicographic ranks: extractRank(k) is not the k-th smallest string",
@@ -56,6 +61,9 @@ FIXED = {
  "the SDArray low-bits array has the extra word": (["C19", "C07"], "BitSequenceSDArray over-read its low-bits array on all-ones vectors"),
  "WaveletTreeNoptrs::rank answers for a sequence whose only symbol is 0": (["C19"], "WaveletTreeNoptrs::rank returned 0 for every position of a sequence consisting only of symbol 0"),
  "WaveletTreeNoptrs::select answers for a sequence whose only symbol is 0": (["C19"], "WaveletTreeNoptrs::select failed an assertion (indexing level -1) on a sequence consisting only of symbol 0"),
+ "a decoding subtree keeps its parenthesis bitmap": (["C07", "C08"], "DecodingTree::save freed the tree bitmap (and load freed it too): a second save, or any save of a loaded HTFC/HHTFC/RPHTFC/HASHHF/HASHUFFDAC dictionary with codewords longer than 16 bits, used freed memory"),
+ "HTFC/HHTFC count the padding bits to the next byte boundary": (["C01", "C07", "C18"], "HTFC/HHTFC: a header followed by very short internal strings (look-ahead reaching the next bucket header) was registered without the padding bits and could not be decoded (e.g. 253 copies of a 43-byte string with distinct last bytes, bucket size 2)"),
+ "the front-coding decoders read the whole VByte": (["C01", "C04", "C07", "C13"], "HTFC/HHTFC/RPFC/RPHTFC decoded only two bytes of the shared-prefix length: strings sharing 16384 or more bytes with their predecessor were garbage / heap over-reads"),
  "the chunk decoders do not take a zero byte": (["C01", "C04", "C07", "C18"], "HTFC/HHTFC: strings sharing a prefix of 128, 256, ... bytes with their predecessor undecodable (VByte zero byte taken for the terminator)"),
  "a decoding-table entry never describes more than the 15 symbols": (["C01", "C07", "C18"], "HASHHF/HASHUFFDAC/HHTFC: 16 consecutive one-bit codewords overflowed the 4-bit length of a table entry (e.g. one string of 700 x's)"),
  "FMINDEX maps the sampled position that follows the text": (["C07"], "FMINDEX construction read past the separators bitmap when the text length is a multiple of the sampling step and of 15"),
